@@ -1292,9 +1292,237 @@ func c19Schemes(t *testing.T, v *verifOut) {
 	}
 }
 
+// ---------------------------------------------------------------------------------------------
+// Cross-result aliasing: signature values are independent of each other
+
+// what one value says about its participants
+type c19View struct {
+	IDs    []hotstuff.ID `json:"participants"`
+	Len    int           `json:"len"`
+	Bytes  []int         `json:"bytes,omitempty"`
+	Probes []bool        `json:"-"`
+	R1, R2 []hotstuff.ID `json:"-"`
+}
+
+var c19AliasProbes = []hotstuff.ID{1, 2, 3, 4, 5, 6, 7, 8, 9, 10, 16, 17, 24, 25, 297, 298, 299, 300, 301, 304, 305, 2049}
+
+func c19ViewOf(q hotstuff.QuorumSignature) (w c19View) {
+	set := q.Participants()
+	w.IDs, w.Len = c19ForEach(set), set.Len()
+	if agg, ok := q.(*BLS12AggregateSignature); ok {
+		bf := agg.Bitfield()
+		w.Bytes = []int{}
+		for _, b := range bf.Bytes() {
+			w.Bytes = append(w.Bytes, int(b))
+		}
+	}
+	for _, id := range c19AliasProbes {
+		w.Probes = append(w.Probes, set.Contains(id))
+	}
+	w.R1, w.R2 = c19RangeCount(set, 1), c19RangeCount(set, 2)
+	return w
+}
+
+func (a c19View) equal(b c19View) bool {
+	if a.Len != b.Len || !c19EqIDs(a.IDs, b.IDs) || !c19EqIDs(a.R1, b.R1) || !c19EqIDs(a.R2, b.R2) || len(a.Bytes) != len(b.Bytes) || len(a.Probes) != len(b.Probes) {
+		return false
+	}
+	for i := range a.Bytes {
+		if a.Bytes[i] != b.Bytes[i] {
+			return false
+		}
+	}
+	for i := range a.Probes {
+		if a.Probes[i] != b.Probes[i] {
+			return false
+		}
+	}
+	return true
+}
+
+// c19CrossAlias: several signatures by the SAME signer (Sign called repeatedly, interleaved with
+// Combine) and several Combine results sharing inputs; then an Add through ONE value's
+// Participants() (ids inside and outside its allocated bytes); every OTHER value must answer
+// Contains / ForEach / Len / RangeWhile, and combine, exactly as recorded before. (What the Add
+// does to the value it went through is the known "a Bitfield and its copies share bytes"
+// behaviour and is only recorded.)
+func c19CrossAlias(t *testing.T, v *verifOut) {
+	for _, scheme := range []string{NameBLS12, NameECDSA, NameEDDSA} {
+		cfgs := c19Configs(t, scheme)
+		bases := make([]Base, len(cfgs))
+		for i, cfg := range cfgs {
+			b, err := New(cfg, scheme)
+			if err != nil {
+				t.Fatal(err)
+			}
+			bases[i] = b
+		}
+		checker := "alias_m_mismatches"
+		if scheme == NameBLS12 {
+			checker = "alias_b_mismatches"
+		}
+		sAl := v.Stream("alias_"+scheme, checker, 40)
+		// a family of values: three signatures per signer, Combine results in between
+		broken := false
+		family := func() []c19Arg {
+			var vals []c19Arg
+			sign := func(i, rep int) c19Arg {
+				q, err := bases[i].Sign([]byte(fmt.Sprintf("verif C19 alias %d", rep%2))) // also the same message twice
+				if err != nil {
+					t.Fatal(err)
+				}
+				a := c19Arg{name: fmt.Sprintf("sign(%d)#%d", c19SignerIDs[i], rep), sig: q, signers: c19ForEach(q.Participants())}
+				v.Oracle(c19EqIDs(a.signers, []hotstuff.ID{c19SignerIDs[i]}) && q.Participants().Len() == 1, "alias:other-signature-changed",
+					fmt.Sprintf("%s: a fresh signature by replica %d says participants %v Len %d (Adds through other values' participant sets happened before)", scheme, c19SignerIDs[i], a.signers, q.Participants().Len()),
+					map[string]any{"scheme": scheme, "value": a.name})
+				vals = append(vals, a)
+				return a
+			}
+			comb := func(args ...c19Arg) {
+				res, out := c19Combine(bases[len(vals)%len(bases)], args)
+				if res != c19Ok {
+					// fresh signatures of distinct signers must combine, whatever was done to OTHER values before
+					broken = true
+					v.Oracle(false, "alias:other-signature-changed", fmt.Sprintf("%s: Combine(%v) of freshly made signatures of distinct signers gives %s (participants %v) after earlier Adds through other values' participant sets",
+						scheme, c19ArgNames(args), c19ResNames[res], [][]hotstuff.ID{args[0].signers, args[1].signers}), map[string]any{"scheme": scheme, "combine": c19ArgNames(args)})
+					return
+				}
+				vals = append(vals, c19Arg{name: "combine(" + strings.Join(c19ArgNames(args), ",") + ")", sig: out, signers: c19ForEach(out.Participants())})
+			}
+			var first, second []c19Arg
+			for i := range bases {
+				first = append(first, sign(i, 0))
+			}
+			comb(first[0], first[1]) // results sharing inputs
+			comb(first[0], first[2])
+			comb(first[1], first[2], first[3])
+			for i := range bases {
+				second = append(second, sign(i, 1))
+			}
+			comb(second[0], first[4])        // mixes generations
+			comb(vals[len(first)], first[5]) // extends an earlier result
+			comb(second[5], second[4], second[0])
+			for i := range bases {
+				sign(i, 2)
+			}
+			return vals
+		}
+		nVals := len(family())
+		for m := 0; m < nVals && !broken; m++ {
+			vals := family()
+			if broken || len(vals) != nVals {
+				break
+			}
+			before := make([]c19View, len(vals))
+			for i, a := range vals {
+				before[i] = c19ViewOf(a.sig)
+			}
+			// follow-up combinations of the other values, recorded before the mutation
+			type follow struct {
+				i, j int
+				res  int
+				ids  []hotstuff.ID
+			}
+			var follows []follow
+			for i := 0; i < len(vals); i++ {
+				for _, j := range []int{(i + 1) % len(vals), (i + 7) % len(vals)} {
+					if i == m || j == m || i == j {
+						continue
+					}
+					res, out := c19Combine(bases[0], []c19Arg{vals[i], vals[j]})
+					f := follow{i: i, j: j, res: res}
+					if res == c19Ok {
+						f.ids = c19ForEach(out.Participants())
+					}
+					follows = append(follows, f)
+				}
+			}
+			// ids to add through value m: inside its allocated bytes (not yet members) and outside
+			mut := vals[m]
+			member := map[hotstuff.ID]bool{}
+			for _, id := range mut.signers {
+				member[id] = true
+			}
+			nBytes := len(before[m].Bytes)
+			if scheme != NameBLS12 {
+				nBytes = 1
+			}
+			var addIDs []hotstuff.ID
+			for _, id := range mut.signers { // same byte as a member
+				lo := (id-1)/8*8 + 1
+				for _, c := range []hotstuff.ID{lo, lo + 2, lo + 6, lo + 7} {
+					if !member[c] {
+						addIDs = append(addIDs, c)
+					}
+				}
+			}
+			if len(addIDs) > 8 {
+				addIDs = addIDs[:8]
+			}
+			addIDs = append(addIDs, hotstuff.ID(8*nBytes+1), hotstuff.ID(8*nBytes+9), 2049)
+			for _, id := range addIDs {
+				supported := !c19Try(func() { mut.sig.Participants().Add(id) })
+				if !supported {
+					v.Count(scheme + "_participants_add_not_supported")
+				} else {
+					v.Count(scheme + "_participants_add")
+				}
+				after := make([]c19View, len(vals))
+				for i, a := range vals {
+					after[i] = c19ViewOf(a.sig)
+					if i == m {
+						continue
+					}
+					v.Oracle(after[i].equal(before[i]), "alias:other-signature-changed",
+						fmt.Sprintf("%s: after %s.Participants().Add(%d), the different value %s says participants %v Len %d (before: %v Len %d)", scheme, mut.name, id, a.name, after[i].IDs, after[i].Len, before[i].IDs, before[i].Len),
+						map[string]any{"scheme": scheme, "values": c19ArgNames(vals), "add_through": mut.name, "add_id": id, "changed_value": a.name, "before": before[i], "after": after[i]})
+				}
+				for _, f := range follows {
+					res, out := c19Combine(bases[0], []c19Arg{vals[f.i], vals[f.j]})
+					var ids []hotstuff.ID
+					if res == c19Ok {
+						ids = c19ForEach(out.Participants())
+					}
+					v.Oracle(res == f.res && c19EqIDs(ids, f.ids), "alias:other-signature-changed",
+						fmt.Sprintf("%s: after %s.Participants().Add(%d), Combine(%s,%s) gives %s %v (before: %s %v)", scheme, mut.name, id, vals[f.i].name, vals[f.j].name, c19ResNames[res], ids, c19ResNames[f.res], f.ids),
+						map[string]any{"scheme": scheme, "values": c19ArgNames(vals), "add_through": mut.name, "add_id": id, "combine": []string{vals[f.i].name, vals[f.j].name}})
+				}
+				// kernel: every other value is still the model's value
+				bs, as := make([]string, len(vals)), make([]string, len(vals))
+				for i := range vals {
+					if scheme == NameBLS12 {
+						bb, ab := make([]byte, len(before[i].Bytes)), make([]byte, len(after[i].Bytes))
+						for k, x := range before[i].Bytes {
+							bb[k] = byte(x)
+						}
+						for k, x := range after[i].Bytes {
+							ab[k] = byte(x)
+						}
+						bs[i] = c19Bytes(bb)
+						as[i] = fmt.Sprintf("(%s, %s, %s)", c19Bytes(ab), gNat(after[i].Len), c19IDs(after[i].IDs))
+					} else {
+						bs[i] = c19IDs(before[i].IDs)
+						as[i] = fmt.Sprintf("(%s, %s)", c19IDs(after[i].IDs), gNat(after[i].Len))
+					}
+				}
+				meta := map[string]any{"scheme": scheme, "stream": "alias", "values": c19ArgNames(vals), "add_through": mut.name, "add_id": id, "add_supported": supported}
+				v.Seen(fmt.Sprintf("%s|alias|%d|%d", scheme, m, id), true, meta)
+				v.Case(sAl, fmt.Sprintf("(%s, %s, %s)", gList(bs), gNat(m), gList(as)), meta)
+				if !supported {
+					break // Multi.Add panics by design: one attempt per value is enough
+				}
+				if m == 0 && id == addIDs[0] {
+					v.Note(fmt.Sprintf("own-copy sharing (information only): %s: after %s.Participants().Add(%d) the same value says participants %v Len %d (before %v Len %d)", scheme, mut.name, id, after[m].IDs, after[m].Len, before[m].IDs, before[m].Len))
+				}
+			}
+		}
+	}
+}
+
 func TestVerifC19(t *testing.T) {
 	v := verifNew("C19")
 	c19Bitfield(v)
 	c19Schemes(t, v)
+	c19CrossAlias(t, v)
 	v.Close("one evaluation = one operation sequence on a live Bitfield (or one BitfieldFromBytes, or one Sign/Combine call with real keys); non-trivial = at least two insertions / a non-zero byte string of length >= 1 / a Combine with >= 2 arguments")
 }
